@@ -24,6 +24,21 @@ CATS = ["len", "depth", "tim", "amt", "moles", "span", "tmp", "len alias"]
 NOPE_T, NOPE_U, NOPE_C = "no such type", "nope", "no such category"
 
 
+BYSTANDER = None
+
+
+def _bystander_digest():
+    """Cheap structural digest of the bystander database (its own tables; asks it nothing)."""
+    db = BYSTANDER
+    if db is None or db is _db():
+        return None
+    return (
+        len(db.unit_to_unit_info),
+        len(db.categories_to_quantity_types),
+        tuple((t, len(infos), infos[-1].unit if infos else None) for t, infos in db.quantity_types.items()),
+    )
+
+
 def _db():
     from barril.units.unit_database import UnitDatabase
 
@@ -385,6 +400,7 @@ class RegMonitor(Mon.Monitor):
         if "model" not in sim.user:
             sim.user["model"] = RegModel.from_db(_db()) if self.cfg["world"] != "W-SYN" else RegModel()
         self.pre = self.snap(sim)
+        self.pre_bystander = _bystander_digest()
 
     # -------------------------------------------------------------------------------
     def after(self, sim, op, out):
@@ -393,6 +409,15 @@ class RegMonitor(Mon.Monitor):
         step = op["i"]
         reg = op.get("reg")
         post = self.snap(sim)
+        if BYSTANDER is not None and reg is not None:
+            # "nothing else changes" includes every other database instance
+            sim.check(
+                _bystander_digest() == self.pre_bystander,
+                "C14.honoured",
+                {"kind": reg["kind"], "arg": "other_database"},
+                step,
+                "%s (%s) on the database under test changed ANOTHER UnitDatabase instance" % (reg["kind"], out[0]),
+            )
         if reg is None:
             # read-only user step: must not change the registry (C15 territory, but a registration
             # history that silently depends on queries would make every oracle below meaningless)
@@ -698,7 +723,24 @@ class C14:
         lo, hi = (8, 40) if tier == "quick" else (15, 60)
         if world in ("W-POSC", "W-POSC-NC"):
             hi = min(hi, 25)
-        return {
+        pool = None
+        if world in ("W-POSC", "W-POSC-NC") and rng.random() < 0.6:
+            # the plugin extends quantity types that the shipped table already has
+            from .. import world as W
+
+            info = W.posc_info()
+            basis = W.draw_basis(rng, info, n_types=(1, 2), n_units=(2, 3), n_cats=(1, 2), exotic=0.1)
+            pool = {}
+            cats = []
+            for q, us, cs in basis:
+                rows = [[u, "existing " + u, 1.0] for u in us[:2]]  # collisions with shipped units: rejected
+                tag = q.replace(" ", "")[:6]
+                rows += [["sim%sA" % tag, "sim unit A of " + q, 2.0], ["sim%sB" % tag, "sim unit B of " + q, 0.25]]
+                pool[q] = rows
+                cats += (cs if world == "W-POSC" else []) + ["sim cat " + tag, "sim cat2 " + tag]
+            types = [b[0] for b in basis]
+        cfg_extra = {"pool_types": pool} if pool else {}
+        return dict(cfg_extra, **{
             "prop": "C14",
             "tier": tier,
             "world": world,
@@ -713,14 +755,19 @@ class C14:
                 "clear": rng.choice([0, 0, 0.1, 0.3]),
                 "user": rng.choice([0, 1, 2]),
             },
-        }
+        })
 
     def setup_world(self, cfg):
         from barril.units.unit_database import UnitDatabase
 
         w = cfg["world"]
+        # a bystander: another database instance filled by the same filler as the one under test
+        global BYSTANDER
         if w == "W-POSC":
+            BYSTANDER = UnitDatabase()
+            UnitDatabase.FillUnitDatabaseWithPosc(BYSTANDER)
             return
+        BYSTANDER = UnitDatabase.GetSingleton()  # the default POSC database stays alive next to the pushed one
         db = UnitDatabase()
         if w == "W-SIMPLE":
             UnitDatabase.FillSimple(db)
